@@ -9,6 +9,7 @@
 #include <ipr/impl>
 #include <ipr/io>
 #include <functional>
+#include <map>
 #include <set>
 #include <list>
 #include <deque>
@@ -23,6 +24,7 @@ struct Ck {
    std::string factory;
    std::vector<std::tuple<int, std::string, std::string>> fails;   // aspect, accessor, message
    long long checks = 0;
+   const void* late_impl = nullptr;    // set when the node was given its implementation() after the fact (Sweep::annotate_late)
    void fail(int aspect, const std::string& acc, const std::string& msg) { fails.emplace_back(aspect, acc, msg); }
    void same(const char* acc, const void* got, const void* want, int aspect = A_OPERAND)
    {
@@ -46,6 +48,7 @@ struct Ck {
    template<class T> void opt(const char* acc, Optional<T> got, const T* want, int aspect = A_OPERAND)
    {
       ++checks;
+      if (late_impl && std::strcmp(acc, "implementation") == 0) want = static_cast<const T*>(late_impl);
       if (want == nullptr) { if (got.is_valid()) fail(aspect, acc, std::string(acc) + "() is present although it was not supplied"); }
       else if (!got.is_valid()) fail(aspect, acc, std::string(acc) + "() is absent although it was supplied");
       else if (&got.get() != want) fail(aspect, acc, std::string(acc) + "() is not the supplied operand");
@@ -73,6 +76,7 @@ struct Made {
    Category_code cat = Category_code::Unknown;
    bool generative = true;              // false for unified results (get_*, literals, template-ids)
    std::function<void(Ck&)> check;      // shadow
+   const void* late_impl = nullptr;     // implementation() recorded after construction, if any
 };
 
 // Distinguishable operand pools inside one Lexicon.
@@ -166,10 +170,15 @@ struct Sweep {
    std::vector<Made> made;
    impl::attr_factory attrs;                    // stand-alone factories (not part of the Lexicon)
    impl::capture_spec_factory captures;
+   // the capture specifications made, by interface class (they are not nodes: no visitor of ours reaches them)
+   std::vector<const ipr::Capture_specification::Default*> default_captures; std::vector<const ipr::Capture_specification::Implicit_object*> object_captures;
+   std::vector<const ipr::Capture_specification::Enclosing_local*> local_captures; std::vector<const ipr::Capture_specification::Binding*> binding_captures;
+   std::vector<const ipr::Capture_specification::Expansion*> expansion_captures;
    std::deque<impl::Token> tokens;
    std::deque<impl::Comment> comments;
    std::deque<impl::Annotation> annotations;
    std::list<impl::Module> modules;
+   std::vector<std::pair<const void*, std::function<const ipr::Expr*(const ipr::Expr*)>>> classic;   // nodes that can record a user-supplied implementation
    bool twins_unavailable = false;            // the platform hash is not the one the twin generator inverts
 
    Sweep(impl::Lexicon& l, impl::Translation_unit& u, Rng& r) : lex(l), unit(u), rng(r), P(l, u, r) { }
@@ -179,7 +188,23 @@ struct Sweep {
    {
       Made m; m.factory = factory; m.node = n; m.address = static_cast<const Node*>(n); m.cat = cat; m.generative = generative; m.check = std::move(check);
       made.push_back(std::move(m));
+      // classic operations (and literals, conversions) can be told, at any later time, which user-supplied operation implements them
+      using W = std::conditional_t<std::is_same_v<N, ipr::Literal>, impl::Literal, N>;
+      if constexpr (requires (W* p, Optional<ipr::Expr> o) { p->op_impl = o; })
+         classic.emplace_back(made.back().address, [w = const_cast<W*>(static_cast<const W*>(n))](const ipr::Expr* e) -> const ipr::Expr* {
+            if (!w->op_impl.is_valid()) w->op_impl = e;
+            return &w->op_impl.get(); });
       return made.back();
+   }
+   // Record an implementation() on every classic node that has none yet (what a front end does once overload resolution is
+   // done): every other accessor, type() included, must answer as before; the shadows then expect the recorded expression.
+   long long annotate_late()
+   {
+      long long done = 0;
+      std::map<const void*, const void*> now;
+      for (auto& [addr, set] : classic) { now[addr] = set(P.decls[rng.below(P.decls.size())]); ++done; }
+      for (auto& m : made) { auto it = now.find(m.address); if (it != now.end()) m.late_impl = it->second; }
+      return done;
    }
    Made& add_other(const std::string& factory, const void* addr, std::function<void(Ck&)> check)
    {
@@ -196,7 +221,7 @@ struct Sweep {
    // run the shadow of one artifact; returns failures through Ck
    static void run_check(const Made& m, Ck& ck)
    {
-      ck.factory = m.factory;
+      ck.factory = m.factory; ck.late_impl = m.late_impl;
       if (m.node) { ++ck.checks; if (m.node->category != m.cat) ck.fail(A_OPERAND, "category", "category code is not that of the node's interface class"); }
       try { if (m.check) m.check(ck); }
       catch (const std::exception& e) { ck.fail(A_OPERAND, "shadow", std::string("an accessor raised unexpectedly: ") + e.what()); }
